@@ -477,8 +477,11 @@ Plan genStatus(const std::string& prop, int tier, uint64_t batchSeed, uint64_t i
                 // ... followed by the same packet again with exactly ONE header field changed (or none): "equal to what I hold" shortcuts
                 Item twin = g.plan.items.back();
                 twin.set("t", twin.get("t") + 1);
-                switch (r.below(6))
+                switch (r.below(7))
                 {
+                    case 5:
+                        twin.set("junkx", static_cast<int64_t>(1 + r.below(1000000)));  // only the id field that is not on the wire for this type differs
+                        break;
                     case 0:
                         twin.set("stream", (twin.get("stream", 0) + (r.chance(1, 2) ? 1 : 255)) & 0xFF);
                         break;
